@@ -17,7 +17,7 @@ def tu_check(tu):
 
 def run(tier="quick", seed=0, use_cache=True):
     res = engine.Result("C15")
-    res.rules = ["INDEX-GUARD", "CURSOR-SENTINEL", "CURSOR-EXC", "NEXT-NULL", "PY-LIST-IDENTITY", "LEN-NONNEG"]
+    res.rules = ["INDEX-GUARD", "CURSOR-SENTINEL", "CURSOR-EXC", "NEXT-NULL", "PY-LIST-IDENTITY", "LEN-NONNEG", "PY-CURSOR-EXC"]
     res.explanation = (
         "Memory safety of the C cursors against concurrent mutation, decided "
         "on all 22 translation units: every subscript of a bucket's keys/"
@@ -63,6 +63,8 @@ def run(tier="quick", seed=0, use_cache=True):
     res.explanation += " ERR-NOEXC: no error return (-1 / NULL) is reachable through a branch that lumps a callee's non-error value with its error value (e.g. `PreviousBucket(...) <= 0`): a cursor that finds its leaf gone raises IndexError / RuntimeError, never SystemError."
     from ..rules import pylistid
     pylistid.check(res)
+    from ..rules import pystopiter
+    pystopiter.py_check(res)
     res.explanation += (" INDEX-GUARD also requires that no object is released (Py_DECREF family: arbitrary code) "
                         "between the validating test and the use. PY-LIST-IDENTITY: the Python leaves rebind "
                         "self._keys / self._values only in whole-state operations - the lazy iterators capture "
